@@ -324,6 +324,10 @@ func (u *Unit) typeInv(v Term, t types.Type, alloc Term) Term {
 		if isMsgStruct(ut.Elem()) {
 			inv = And(inv, Implies(Neq(App(SInt, "aobj", v), IntLit(0)), App(SBool, "is_msg_obj", App(SInt, "aobj", v))))
 		}
+		if isSigStruct(ut.Elem()) {
+			// a Signature / Countersignature is its own object, never part of a message object
+			inv = And(inv, Not(App(SBool, "is_msg_obj", App(SInt, "aobj", v))))
+		}
 		return inv
 	case *types.Slice:
 		return App(SBool, "slice_ok", v, alloc)
@@ -352,6 +356,18 @@ func isMsgStruct(t types.Type) bool {
 	}
 	switch n.Obj().Name() {
 	case "Sign1Message", "UntaggedSign1Message", "SignMessage":
+		return true
+	}
+	return false
+}
+
+func isSigStruct(t types.Type) bool {
+	n, ok := t.(*types.Named)
+	if !ok || n.Obj().Pkg() == nil || n.Obj().Pkg().Path() != "github.com/veraison/go-cose" {
+		return false
+	}
+	switch n.Obj().Name() {
+	case "Signature", "Countersignature":
 		return true
 	}
 	return false
